@@ -14,9 +14,12 @@ package c34
 
 import (
 	"encoding/json"
+	"errors"
 	"fmt"
 	"net"
+	"os"
 	"runtime"
+	"strings"
 	"sync"
 	"sync/atomic"
 	"testing"
@@ -49,19 +52,25 @@ type Plan struct {
 // ---------------------------------------------------------------------------
 // transport wrapper: progress accounting (atomics only)
 
+// The counters must not order goroutines that the connection itself does not order: a counter
+// shared by all goroutines (as an earlier version had) makes every increment an acquire/release
+// pair between them and HIDES data races from the race detector (a goroutine that only slept
+// "learned" of another goroutine's writes through the counter).  So each transport direction
+// has its own counter (those calls already run under the connection's in/out mutex) and each
+// worker goroutine has its own operation counter; only the monitor reads them all.
 type progConn struct {
 	net.Conn
-	prog *atomic.Int64
+	rd, wr atomic.Int64
 }
 
 func (c *progConn) Read(b []byte) (int, error) {
 	n, err := c.Conn.Read(b)
-	c.prog.Add(1)
+	c.rd.Add(1)
 	return n, err
 }
 func (c *progConn) Write(b []byte) (int, error) {
 	n, err := c.Conn.Write(b)
-	c.prog.Add(1)
+	c.wr.Add(1)
 	return n, err
 }
 
@@ -95,12 +104,26 @@ type worker struct {
 	chunks [][]byte   // data returned by this goroutine's Reads, in its own order
 	writes []writeRec // this goroutine's Writes, in order
 	cur    atomic.Value
-	done   chan struct{}
-	panicv any
-	stack  string
+	nops   atomic.Int64 // operations completed by this goroutine (its own counter, see progConn)
+	// integrity: error texts of Read/Write calls that say the record protection failed.  The
+	// transport of this check never alters bytes (the proxy only delays and segments), so such
+	// an error can only mean the two ends' record states diverged.
+	integrity []string
+	done      chan struct{}
+	panicv    any
+	stack     string
 }
 
-func (w *worker) run(prog *atomic.Int64) {
+func (w *worker) noteIntegrity(call string, err error) {
+	if err == nil {
+		return
+	}
+	if m := err.Error(); strings.Contains(m, "bad record MAC") || strings.Contains(m, "decryption failed") {
+		w.integrity = append(w.integrity, fmt.Sprintf("%s goroutine %d %s: %s", w.side, w.id, call, m))
+	}
+}
+
+func (w *worker) run() {
 	defer close(w.done)
 	defer func() {
 		if p := recover(); p != nil {
@@ -114,14 +137,16 @@ func (w *worker) run(prog *atomic.Int64) {
 		switch op.K {
 		case "read":
 			buf := make([]byte, op.N)
-			n, _ := w.conn.Read(buf)
+			n, err := w.conn.Read(buf)
 			if n > 0 {
 				w.chunks = append(w.chunks, buf[:n])
 			}
+			w.noteIntegrity("Read", err)
 		case "write":
 			cnt := len(w.writes)
 			n, err := w.conn.Write(payload(w.id, cnt, op.N))
 			w.writes = append(w.writes, writeRec{n: op.N, sent: n, err: err})
+			w.noteIntegrity("Write", err)
 		case "handshake":
 			w.conn.Handshake()
 		case "state":
@@ -151,7 +176,7 @@ func (w *worker) run(prog *atomic.Int64) {
 		case "sleep":
 			time.Sleep(time.Duration(op.N) * time.Microsecond)
 		}
-		prog.Add(1)
+		w.nops.Add(1)
 	}
 	w.cur.Store("finished")
 }
@@ -293,7 +318,6 @@ func check(c Plan, r *kit.R) {
 	pj, _ := json.Marshal(c)
 	fmt.Printf("C34-PLAN %s\n", pj)
 
-	var prog atomic.Int64
 	var rec atomic.Int64
 	hook := func(tr tlskit.Record) ([][]byte, bool) {
 		i := int(rec.Add(1))
@@ -315,8 +339,9 @@ func check(c Plan, r *kit.R) {
 	if c.Tickets {
 		ccfg.ClientSessionCache = tls.NewLRUClientSessionCache(2)
 	}
-	cc := tls.Client(&progConn{Conn: px.Client, prog: &prog}, ccfg)
-	sc := tls.Server(&progConn{Conn: px.Server, prog: &prog}, scfg)
+	ctr, str := &progConn{Conn: px.Client}, &progConn{Conn: px.Server}
+	cc := tls.Client(ctr, ccfg)
+	sc := tls.Server(str, scfg)
 
 	if c.Pre {
 		res := tlskit.Handshake(cc, sc, kit.WatchdogSeconds())
@@ -341,7 +366,7 @@ func check(c Plan, r *kit.R) {
 	start.Add(1)
 	for _, w := range ws {
 		w := w
-		go func() { start.Wait(); w.run(&prog) }()
+		go func() { start.Wait(); w.run() }()
 	}
 	start.Done()
 
@@ -355,12 +380,19 @@ func check(c Plan, r *kit.R) {
 		}
 		return true
 	}
+	progress := func() int64 {
+		p := ctr.rd.Load() + ctr.wr.Load() + str.rd.Load() + str.wr.Load()
+		for _, w := range ws {
+			p += w.nops.Load()
+		}
+		return p
+	}
 	idle := 120 * time.Millisecond
-	last, lastChange, begin := prog.Load(), time.Now(), time.Now()
+	last, lastChange, begin := progress(), time.Now(), time.Now()
 	stalled := false
 	for !allDone() {
 		time.Sleep(2 * time.Millisecond)
-		if p := prog.Load(); p != last {
+		if p := progress(); p != last {
 			last, lastChange = p, time.Now()
 		} else if time.Since(lastChange) > idle || time.Since(begin) > 5*time.Second {
 			stalled = true
@@ -424,6 +456,35 @@ func check(c Plan, r *kit.R) {
 		for _, ch := range w.chunks {
 			got += len(ch)
 		}
+	}
+	// Documented at SetWriteDeadline: "After a Write has timed out, the TLS state is corrupt and
+	// all future writes will return the same error."  (The timed-out record was already
+	// protected, so its sequence number is spent.)  Hence, in one goroutine's own order, a Write
+	// that timed out must never be followed by a Write that reports success: that data cannot be
+	// decrypted by the peer and the byte stream of the direction is lost.
+	// A "bad record MAC" seen by a peer is NOT asserted on: after a timed-out Write, a later
+	// close_notify is sent under the advanced sequence number and legitimately fails to verify
+	// (DESIGN.md section 6); it is only classified.
+	sawMAC := false
+	for _, w := range ws {
+		if len(w.integrity) > 0 {
+			sawMAC = true
+		}
+		timedOut := -1
+		for i, wr := range w.writes {
+			if wr.err != nil && (errors.Is(wr.err, os.ErrDeadlineExceeded) || strings.Contains(wr.err.Error(), "deadline exceeded") || strings.Contains(wr.err.Error(), "i/o timeout")) {
+				if timedOut < 0 {
+					timedOut = i
+				}
+				continue
+			}
+			if timedOut >= 0 && wr.err == nil && wr.sent > 0 {
+				r.Failf("C34:write-succeeds-after-timed-out-write", "plan %s\n%s goroutine %d: its Write #%d timed out (%v) and its later Write #%d reported success (%d bytes); the documentation promises that all future writes fail, and the peer cannot decrypt that record", pj, w.side, w.id, timedOut, w.writes[timedOut].err, i, wr.sent)
+			}
+		}
+	}
+	if sawMAC {
+		r.Class("peer-saw-bad-record-mac(after a timed-out write; legitimate)")
 	}
 	r.Class(fmt.Sprintf("vers=%04x pre=%v", c.Vers, c.Pre))
 	if stalled {
@@ -522,6 +583,23 @@ func genSide(t *rapid.T, l string) [][]Op {
 		role := pick(t, fmt.Sprintf("%s%d-role", l, i), []int{0, 1, 0, 1, 2, 3})
 		out = append(out, genOps(t, fmt.Sprintf("%s%d-", l, i), role))
 	}
+	// motif 1 (about 1 side in 8): a write that fails on an expired write deadline, the deadline
+	// cleared, and another write - the connection must not pretend that the second one worked
+	// while the peer can no longer decrypt.
+	if uni(t, l+"deadline-motif", 8) == 0 {
+		i := uni(t, l+"motif-g", len(out))
+		k := pick(t, l+"motif-n", []int{10, 300, 2, 1500})
+		motif := []Op{{K: "wdeadline", N: -1}, {K: "write", N: k}, {K: "wdeadline", N: 0}, {K: "write", N: k}, {K: "sleep", N: 1000}}
+		at := uni(t, l+"motif-at", len(out[i])+1)
+		out[i] = append(append(append([]Op{}, out[i][:at]...), motif...), out[i][at:]...)
+	}
+	// motif 2 (about 1 side in 6): a latecomer whose first call on the connection comes after a
+	// long pause, i.e. (when the handshake is raced by the other goroutines) after it completed,
+	// without having waited for it on the connection's own locks.
+	if uni(t, l+"latecomer", 6) == 0 {
+		first := pick(t, l+"late-op", []Op{{K: "read", N: 100}, {K: "write", N: 10}, {K: "handshake"}, {K: "read", N: 1}})
+		out = append(out, []Op{{K: "sleep", N: pick(t, l+"late-us", []int{20000, 40000, 60000})}, first, {K: "state"}})
+	}
 	return out
 }
 
@@ -543,7 +621,7 @@ func gen(t *rapid.T) Plan {
 	return p
 }
 
-const rule = "a connected zcrypto client/server pair (TLS 1.0-1.3; ECDSA, RSA, Ed25519 keys; tickets on/off; handshake completed beforehand in half of the plans, otherwise Read/Write/Handshake race to start it) behind the tlskit proxy (generated per-record delays, records optionally delivered in two segments); 2-6 goroutines per side (readers, writers, mixed, controllers) run generated sequences of Read(0..20000) / Write(tagged record of 6..16384 bytes) / Handshake / ConnectionState / SetDeadline,SetReadDeadline,SetWriteDeadline(past, soon, later, clear) / CloseWrite / Close / Gosched / sleep(1..3000 us); when the plan has run or stalled both transports are closed. Non-trivial: >= 2 goroutines reading or >= 2 writing on one side and at least one Close/CloseWrite/deadline operation; distinct by plan hash (each plan is additionally a fresh sample of the scheduler)"
+const rule = "a connected zcrypto client/server pair (TLS 1.0-1.3; ECDSA, RSA, Ed25519 keys; tickets on/off; handshake completed beforehand in half of the plans, otherwise Read/Write/Handshake race to start it) behind the tlskit proxy (generated per-record delays, records optionally delivered in two segments); 2-6 goroutines per side (readers, writers, mixed, controllers) run generated sequences of Read(0..20000) / Write(tagged record of 6..16384 bytes) / Handshake / ConnectionState / SetDeadline,SetReadDeadline,SetWriteDeadline(past, soon, later, clear) / CloseWrite / Close / Gosched / sleep(1..3000 us), plus two motifs: a writer doing past-write-deadline / Write / clear-deadline / Write (1 side in 8) and a latecomer goroutine whose first call follows a 20-60 ms pause (1 side in 6); when the plan has run or stalled both transports are closed. Non-trivial: >= 2 goroutines reading or >= 2 writing on one side and at least one Close/CloseWrite/deadline operation; distinct by plan hash (each plan is additionally a fresh sample of the scheduler)"
 
 func TestPropSchedules(t *testing.T) {
 	kit.Run(t, kit.Spec[Plan]{ID: "C34", Name: "schedules", Rule: rule, Gen: gen, Check: check, Quick: 250, Thorough: 1500,
